@@ -953,6 +953,54 @@ func verifStatusLine(w *verifWorld, out *verifkit.Trace, sid *int, rng *rand.Ran
 }
 
 /*
+	C05 at the level of the interface: the fetch of a reply stalls until the timeout while the user moves to another
+	page and comes back.  The load must end on the page that asked for it, as an error item there.
+*/
+func TestVerifFaultNav(t *testing.T) {
+	w, out := verifSetup(t)
+	defer out.Close()
+	defer w.sim.Cleanup()
+	jtp.VerifSetTimeout(time.Second)
+	u := w.h.URL
+	for round, fault := range []string{"stall", "cut", "stall"} {
+		jtp.VerifSetCache(64)
+		note := fmt.Sprintf("/notes/fn%d", round)
+		reply := fmt.Sprintf("/notes/fn%d/r1", round)
+		w.put(note, map[string]any{"type": "Note", "name": "fn", "content": "<p>x</p>",
+			"replies": map[string]any{"id": u(note + "/replies"), "type": "Collection", "items": []any{u(reply)}}})
+		w.h.Set(reply, &verifsim.Route{Raw: []byte("HTTP/1.1 200 OK\r\nContent-Type: application/activity+json\r\n\r\n{\"type\":\"Note\",\"content\":\"reply\"}"), Fault: fault, At: 30})
+		v := verifNewSession(w, out, 9000+round, false)
+		start := time.Now()
+		outcome := "timeout"
+		if err := v.s.Subcommand("open", u(note)); err == nil {
+			for waited := 0; waited < 600; waited++ {
+				v.s.m.Lock()
+				shown := v.s.mode != loading
+				v.s.m.Unlock()
+				if shown {
+					break
+				}
+				time.Sleep(5 * time.Millisecond)
+			}
+			/* away to another page while the reply is being fetched, and back after the fetch has given up */
+			v.s.Subcommand("open", u(w.startA))
+			time.Sleep(2500 * time.Millisecond)
+			if _, _, wedged := v.press("h", []byte{'h'}); !wedged {
+				v.press("j", []byte{'j'})
+				if obs := v.observe(); obs["hl"] == "fail" {
+					outcome = "err"
+				} else {
+					outcome = "nodoc" /* the load ended, but the page that asked shows no error item */
+				}
+			}
+		}
+		elapsed := time.Since(start)
+		out.Emit(verifkit.M{"ev": "fault", "id": fmt.Sprintf("nav-%d", round), "hops": 0, "hop": 0, "kind": "nav-" + fault, "at": 30, "stage": "interface", "big": false,
+			"outcome": outcome, "whole": false, "ticks": 0, "ms": elapsed.Milliseconds(), "err": "", "again": "skipped"})
+	}
+}
+
+/*
 	C20: every hook configuration from TLC (Gen_Hook) x every link the hook world offers
 	(body links, attachments with media types, post media, profile picture, banner - with
 	spaces, quotes, leading dashes, $(), backticks and text that looks like a placeholder).
